@@ -747,7 +747,8 @@ def shards(tier):
     for s in big:
         for first in range(-1, s["ncol"] + (1 if s["reader"] == "GeoJSON.read" else 0)):
             out.append(dict(s, first=first))
-    return out
+    from mc import harness
+    return harness.with_hash_seeds(out, tier, lambda sh: sh["part"] == "restrict" and sh.get("ncol", 9) == 3 and sh["file"].get("fmt") in ("json", "geojson", "csv"))
 
 
 def run_shard(shard, rec):
